@@ -58,8 +58,8 @@ LEVEL_TEXT = ("Proved in Lean 4 about the model that the driver runs, for ALL by
               "dispatch_requires_valid_content_length, cut_in_request_line_not_dispatched) every request handed to the application is "
               "a segment of the stream consisting of a full request line that splits into the method/target/protocol handed over, a "
               "complete header block whose line-by-line fold IS the header dictionary handed over (HeaderBlockD), and the complete "
-              "body those headers announce, which is the body handed over: the chunk sequence when Transfer-Encoding is chunked "
-              "(Content-Length is then ignored), else exactly the decimal Content-Length (< 2^31; signed, non-digit or longer values "
+              "body those headers announce, which is the body handed over: the chunk sequence (valid size lines, exactly that many "
+              "data bytes, CRLF after each chunk, terminating 0 chunk) when Transfer-Encoding is chunked (Content-Length is then ignored), else exactly the decimal Content-Length (< 2^31; signed, non-digit or longer values "
               "are never dispatched), else nothing. The same clause is judged on the real server by an independent RFC 7230 framing "
               "parser over every req/srv/tcp stream of every run. The model is tied to the code by the correspondence check on all "
               "observable fields, socket state, bytes written back, bytes left unread, and (fmap) status/length of the static file "
@@ -72,7 +72,8 @@ LEVEL_NOTE = ("Trusted: Lean kernel, harness + watchdog, the python framing pars
               "coding is `chunked`, ASCII case-insensitively (fix 7dcf721; String::toLowerCase is UTF-8 aware, the model ASCII: values "
               "with bytes >= 0x80 are not generated); gzip/deflate codings are not decoded. Folded header lines are joined to the "
               "field value with one space (350c8ee) and received empty values are kept (988a64d); query tokens without `=` are "
-              "dropped by Url::parseQuery by design (outside_findings.txt). The chunk-terminating CRLF is not checked by the code (ChunkedWire says `two bytes`). "
+              "dropped by Url::parseQuery by design (outside_findings.txt). Chunk framing is validated (4dbedbe, d0ace7d): size lines are 1-8 hex digits (<= 0x7fffffff) + blanks/;ext, each chunk must "
+              "end in CRLF, trailer fields are not supported (such a request is dropped). "
               "Range/If-Modified-Since handling of the file server is covered by the safety oracle of the `file` op only (no byte "
               "from outside the root, legal status codes, ASan); plain GET mapping is model-checked by `fmap`. Partial: the header "
               "hypotheses of the faithful-read theorems are stated on hdrDic (the fold), the sorted-map lemma `other keys unaffected` "
@@ -451,12 +452,25 @@ def gen(rng, tier):
     # --- chunked bodies with odd chunk-size lines
     c = []
     for sz in [b"-1", b"-5", b"ffffffff", b"fffffffb", b"80000000", b"7fffffff", b"100000000", b"100000005", b"0x5", b"0X5", b" 5", b"+5",
-               b"5;ext=1", b"", b"g", b"00000005", b"ffffffffffffffffffff", b"-ffffffffffffffffffff", b"5 ", b"\t5", b"5\x00", b"0x", b"0xg"]:
+               b"5;ext=1", b"", b"g", b"00000005", b"ffffffffffffffffffff", b"-ffffffffffffffffffff", b"5 ", b"\t5", b"5\x00", b"0x", b"0xg",
+               b"-fffffffb", b"000000005", b"80000005", b"5 ;x", b"5\t", b"5 5", b"5x", b"5;", b"05", b"F", b"f"]:
         for pre in [b"", b"3\r\nabc\r\n"]:
             s = b"POST /c HTTP/1.1\r\nTransfer-Encoding: chunked\r\n\r\n" + pre + sz + b"\r\nhello\r\n0\r\n\r\nGET /n HTTP/1.1\r\n\r\n"
             c.append("req " + hexs(s))
             c.append("req " + hexs(s.replace(b"Transfer-Encoding: chunked", b"Transfer-Encoding: chunked\r\nContent-Length: 6")))
+            c.append("srv " + hexs(s))
             st["req_mutated"] += 2
+            st["srv_streams"] += 1
+    # what follows the chunk data must be CRLF; trailer fields; a missing last chunk
+    hd = b"POST /c HTTP/1.1\r\nTransfer-Encoding: chunked\r\n\r\n"
+    nx = b"GET /y HTTP/1.1\r\n\r\n"
+    for tail in [b"5\r\nhello\r\nzz\r\n" + nx, b"5\r\nhelloXX3\r\nabc\r\n0\r\n\r\n" + nx, b"5\r\nhello\n\n0\r\n\r\n" + nx, b"5\r\nhello\r\r0\r\n\r\n" + nx,
+                 b"5\r\nhello\r\n0\r\nX-Trailer: 1\r\n\r\n" + nx, b"5\r\nhello\r\n0\r\n" + nx, b"5\r\nhello0\r\n\r\n" + nx, b"5\r\nhello\r\n0\r\n\n\n" + nx,
+                 b"5\nhello\r\n0\r\n\r\n" + nx, b"5\r\nhello\r\n0 \r\n\r\n" + nx, b"4\r\nhello\r\n0\r\n\r\n" + nx, b"6\r\nhello\r\n0\r\n\r\n" + nx]:
+        c.append("srv " + hexs(hd + tail))
+        c.append("req " + hexs(hd + tail))
+        st["srv_streams"] += 1
+        st["req_mutated"] += 1
     cases.append(c)
 
     # --- B. server loop: pipelined requests
@@ -968,24 +982,21 @@ def _frame(s):
             j = s.find(b"\n", pos)
             if j < 0:
                 return "incomplete"
-            m = re.fullmatch(rb"([0-9a-fA-F]{1,7})\r?", s[pos:j])
-            if not m:
-                return None
+            # chunk-size = 1*HEXDIG, optional blanks, optional ;extension, CRLF (RFC 7230 4.1); sizes that do not fit
+            # 31 bits, signs, prefixes or anything else: the framing is unknown, nothing may be dispatched
+            m = re.fullmatch(rb"([0-9a-fA-F]{1,8})[ \t]*(?:;[^\n]*)?\r", s[pos:j])
+            if not m or int(m.group(1), 16) > 0x7fffffff or b"\x00" in s[pos:j]:
+                return "incomplete"
             n = int(m.group(1), 16)
             pos = j + 1
-            if n == 0:
-                if len(s) - pos < 2:
-                    return "incomplete"      # terminating chunk not complete
-                if s[pos:pos + 2] != b"\r\n":
-                    return None              # trailer fields
-                pos += 2
-                break
             if len(s) - pos < n + 2:
-                return "incomplete"
+                return "incomplete"      # chunk data or its CRLF (after the last chunk: the empty trailer) missing
             if s[pos + n:pos + n + 2] != b"\r\n":
-                return None
+                return "incomplete"      # not a chunk end (trailer fields are not supported: such a request is dropped)
             body += s[pos:pos + n]
             pos += n + 2
+            if n == 0:
+                break
     return {"method": method, "target": target, "proto": proto, "headers": hd if simple else None, "body": body, "used": pos}
 
 
